@@ -97,7 +97,7 @@ func TestReplayC18(t *testing.T) { runReplay(t, "C18", checkC18) }
 func TestC19(t *testing.T) {
 	runProp(t, "C19", checkC19, func(t *rapid.T) *Case {
 		fams := []famWeight{{"K1", 20}, {"K2", 25}, {"K3", 10}, {"K5", 5}, {"K6", 10}, {"K7", 5}, {"Krand", 5}, {"Kshort", 20}}
-		c := genTrieCase(t, trieGenOpt{encs: renderEncs, fams: fams})
+		c := genTrieCase(t, trieGenOpt{encs: renderEncs, fams: fams, slowAPI: true})
 		return c
 	})
 }
